@@ -485,3 +485,24 @@ def logger_rows_big_twin(gaps: List[float], acts: List[int], vals: List[float]) 
     """
     ok, rows = _logger(gaps, acts, vals)
     return ok and len(rows) >= 3 and len(gaps) == 2 and acts[0] == 2 and vals[0] != 0.02
+
+
+def logger_two_period_changes(gaps: List[float], vals: List[float]) -> bool:
+    """
+    thorough tier: two successive changes of the logging period at arbitrary instants
+    pre: len(gaps) == 2 and len(vals) == 2
+    pre: all(0.0 <= g <= 0.03 for g in gaps) and all(0.01 <= v <= 0.04 for v in vals)
+    post: _ == True
+    """
+    ok, rows = _logger(gaps, [2, 2], vals)
+    return ok
+
+
+def logger_two_period_changes_twin(gaps: List[float], vals: List[float]) -> bool:
+    """
+    pre: len(gaps) == 2 and len(vals) == 2
+    pre: all(0.0 <= g <= 0.03 for g in gaps) and all(0.01 <= v <= 0.04 for v in vals)
+    post: _ == False
+    """
+    ok, rows = _logger(gaps, [2, 2], vals)
+    return ok and len(rows) >= 3 and vals[0] != 0.02 and vals[1] != vals[0]
